@@ -448,8 +448,41 @@ func (c *Ctx) c17KeptContainers() {
 	step("mark(\"j\")", call("mark", 1, goat.String("j")), "ok 2207")
 }
 
+// c17BuiltinNamed: reloading unchanged source leaves every function behaving as before - also when the package
+// declares functions, variables or constants spelled like builtins, after their users, in a package whose import path
+// differs from its name (fixes 36683fb, 72c716b: the first load took the builtin, the reload the package's name)
+func (c *Ctx) c17BuiltinNamed() {
+	ext := "package ext\n\nvar Log []string\n\nfunc Count(xs []int) int {\n\treturn len(xs)\n}\n\nfunc Note(s string) int {\n\tprint(s)\n\treturn cap + println\n}\n\nfunc len(xs []int) int {\n\treturn 100 + 1\n}\n\nfunc print(s string) {\n\tLog = append(Log, s)\n}\n\nvar println = 7\n\nconst cap = 30\n"
+	app := "package main\n\nimport \"example.com/test/ext\"\n\nvar copy = 2\n\nfunc Run() []int {\n\treturn []int{ext.Count([]int{1, 2, 3}), ext.Note(\"n\"), len(ext.Log), copy * 2, delete(4)}\n}\n\nfunc delete(k int) int {\n\treturn k + copy\n}\n"
+	for _, dir := range []string{"example.com/test/ext", "vendor/example.com/test/ext", "ext"} {
+		sys := fstest.MapFS{dir + "/ext.go": &fstest.MapFile{Data: []byte(ext)}, "main/main.go": &fstest.MapFile{Data: []byte(app)}}
+		vm := goat.New()
+		var held goat.Value
+		for load := 1; load <= 3; load++ {
+			err := vm.Load(sys, "main")
+			var rets []goat.Value
+			if err == nil {
+				if load == 2 {
+					rets, err = vm.Func(held, 1)
+				} else {
+					rets, err = vm.Call("main.Run", 1)
+				}
+			}
+			if load == 1 {
+				held = vm.Get("main.Run")
+			}
+			c.Rep.Oracle["reload-builtin-named"]++
+			want := fmt.Sprintf("ok [101 37 %d 4 6]", load)
+			if got := c19Show(rets, err); got != want {
+				c.Rep.Violate(Violation{Kind: "oracle", Cut: "reload-builtin-named", Input: fmt.Sprintf("load %d of the same source, package ext under %s:\n%s\n%s", load, dir, ext, app), Impl: got, Oracle: want})
+			}
+		}
+	}
+}
+
 func runC17(c *Ctx) error {
 	c.c17LiveReload()
+	c.c17BuiltinNamed()
 	c.c17KeptContainers()
 	c.c17TypeGainsFields()
 	c.Rep.Rule = "reload: one VM per history; 2..5 versions of a package with 1..5 functions and 1..3 methods whose bodies change, stay the same, appear in a later version or are left out of one; 8..37 steps of Load(version k) / Eval with an explicit import (reload of the current version, also of unchanged source) / capture of a function in a variable, a struct field, a slice element, of a bound method and of a bound method inside a struct field / new instance / call of everything captured and of every function and method by name / creation and formatting of fresh instances of every struct type by the current code / Bump, SetMode, instance Inc / read of the package variables (two without initialiser, two with); distinct = distinct history; non-trivial = at least two loads and one capture"
